@@ -514,6 +514,10 @@ def run(ctx):
             run_demo(ctx, 'demo_leaves.py', [20260929 + ctx.seed], 'c07-leaf-samplers-vs-model',
                      'leaf samplers (inverse transform) and cdfs against the exact leaf theory (LeafQ)')
         if ctx.n_new() == 0:
+            run_demo(ctx, 'demo_tr5clt.py', [1 + ctx.seed], 'c07-clt-sample-loop-law',
+                     'BinaryCLT.sample: the Bernoulli parameters the implementation draws with = the law of the LOOP generated from the source '
+                     '= value(completed row) / value(evidence) of the model', env_extra=dict(DEMO_SECTIONS='c', TR5_MAXN='4'))
+        if ctx.n_new() == 0:
             run_demo(ctx, 'demo_tr4.py', [1 + ctx.seed], 'c07-code-vs-generated-vs-model-4',
                      'sum_sample branch law vs generated entry vs model', env_extra=dict(DEMO_SECTIONS='g'))
 
